@@ -1,7 +1,7 @@
 Require Extraction.
 Require Import ExtrOcamlBasic.
 From Coq Require Import ZArith List Ascii.
-Require Import Cspuz.Lib.PyErr Cspuz.Codec.Comb Cspuz.Codec.CombWf Cspuz.Codec.Yajilin Cspuz.Codec.Puzzles Cspuz.Codec.TotalModel.
+Require Import Cspuz.Lib.PyErr Cspuz.Codec.Comb Cspuz.Codec.CombWf Cspuz.Codec.Yajilin Cspuz.Codec.Puzzles Cspuz.Codec.TotalModel Cspuz.Codec.TotalReencModel.
 Extraction "model.ml" Z.add Nat.add pyerr_code py_int py_str_int isdigit_c is_hex is_alnum_lower
   no_custom yajilin_custom cu_env de de_at deserialize_problem_cu deserialize_url_cu
-  serialize_problem_cu dec_ok single productive wf tupl_single url_match.
+  serialize_problem_cu dec_ok single productive wf tupl_single reenc_ok url_match.
